@@ -535,6 +535,29 @@ def run(prop, report, tier, seed, replay=None):
             sig, what = v
             report.violation(f'{prop}:{sig}', what, dict(case=case, observed=dict(outcome=obs['outcome'], exc=obs.get('exc'),
                                                                                   events=obs['events'][:80])))
+    # the same under other hash seeds (set iteration order decides, e.g., which result is released first): cases generated and
+    # run in fresh interpreters, their observations compared with the model here
+    if prop in ('C01', 'C17') and replay is None:
+        import subprocess
+        import tempfile
+        from common import PY, subdir
+        here = os.path.dirname(os.path.abspath(__file__))
+        for hs in ((1, 4242) if tier == 'quick' else (1, 2, 7, 99, 4242)):
+            outf = tempfile.mktemp(dir=subdir('hashseed'), suffix='.json')
+            env = dict(os.environ, PYTHONHASHSEED=str(hs), PYTHONPATH=os.environ.get('LV_REPO', '/repo') + ':' + here)
+            p = subprocess.run([PY, os.path.join(here, 'l3_hashseed.py'), prop, str(seed), str(40 if tier == 'quick' else 400), outf],
+                               env=env, stdout=subprocess.PIPE, stderr=subprocess.PIPE, stdin=subprocess.DEVNULL, text=True, timeout=1800)
+            if p.returncode != 0 or not os.path.exists(outf):
+                report.broke(f'runs under PYTHONHASHSEED={hs} could not be carried out', p.stderr[-1500:])
+                continue
+            for row in json.load(open(outf)):
+                dist[f'hashseed={hs}'] += 1
+                case = dict(row['case'], hashseed=hs)
+                obs = dict(outcome=row['outcome'], events=row['events'], batches=[], exc=None)
+                results.append((case, obs))
+                terms.append(row['term'])
+                if row['verdict']:
+                    report.violation(f"{prop}:{row['verdict'][0]}", f"(PYTHONHASHSEED={hs}) {row['verdict'][1]}", dict(case=row['case'], hashseed=hs))
     try:
         bad = coq_failing(f'corr_{prop}', S.SCHED_IMPORTS, terms, f'check_proj sched_params {spec["proj"]}')
     except CoqError as e:
